@@ -306,6 +306,22 @@ def run_check(pid, tier, seed):
     else:
         errs = [hout]
         log("[%s] %s" % (pid, hout[-1500:]))
+    # clauses of this property that are decided on another property's case stream (registry "parts"):
+    # that harness is run too and its monitor failures whose tag matches are reported under this property
+    part_fail = []
+    for pid2, rx in registry.PROPS[pid].get("parts", []):
+        od2 = os.path.join(WORK, "%s-part-%s" % (pid, pid2))
+        ok2, hout2 = run_harness(pid2, tier, seed, od2)
+        if not ok2:
+            errs.append(hout2); continue
+        f2, e2, m2 = run_cases(od2)
+        errs += e2
+        k2 = {k["match"] for k in load_known() if k.get("property") in (pid, pid2) and k.get("status") == "known"}
+        hit = [(i, t[4:]) for i, t in f2 if t.startswith("mon:") and re.search(rx, t[4:]) and t[4:] not in k2]
+        log("[%s] part %s (%s): %d cases, %d matching monitor failures" % (pid, pid2, rx, m2.get("evaluations", 0), len(hit)))
+        meta.setdefault("notes", {})["part_" + pid2] = "%d cases of the %s stream judged for clauses %s" % (m2.get("evaluations", 0), pid2, rx)
+        meta["evaluations"] = meta.get("evaluations", 0) + m2.get("evaluations", 0)
+        part_fail += [(pid2, od2, i, t) for i, t in hit]
     known = [k for k in load_known() if k.get("property") == pid and k.get("status") == "known"]
     known_tags = {k["match"]: k for k in known}
     mon_fail = [(i, t[4:]) for i, t in fails if t.startswith("mon:")]
@@ -327,6 +343,13 @@ def run_check(pid, tier, seed):
         json.dump(rec, open(rpath, "w"), indent=1)
         log("VIOLATION property=%s replay=%s" % (pid, rpath))
         verdict = 1
+    elif part_fail:
+        pid2, od2, i, tag = part_fail[0]
+        rec = dict(property=pid, seed=seed, tier=tier, kind="failing-input", clause=tag, case_index=i, stream=pid2,
+                   case=case_record(od2, i), replay_with="./check %s --replay <this file>" % pid2)
+        json.dump(rec, open(rpath, "w"), indent=1)
+        log("VIOLATION property=%s replay=%s" % (pid, rpath))
+        verdict = 1
     elif corr_fail or ob["failed"] or errs:
         rec = dict(property=pid, seed=seed, tier=tier, kind="unchecked")
         if ob["failed"]:
@@ -340,7 +363,7 @@ def run_check(pid, tier, seed):
         json.dump(rec, open(rpath, "w"), indent=1)
         log("VIOLATION property=%s replay=%s no-failing-input-found" % (pid, rpath))
         verdict = 1
-    write_evidence(pid, tier, seed, ob, meta, time.time() - t0, len(new_mon) + len(corr_fail) + len(ob["failed"]),
+    write_evidence(pid, tier, seed, ob, meta, time.time() - t0, len(new_mon) + len(part_fail) + len(corr_fail) + len(ob["failed"]),
                    dict(correspondence_failures=len(corr_fail), monitor_failures=len(mon_fail),
                         known_findings_seen=sorted(seen_known), build_errors=errs[:3]))
     log("[%s] %s tier done in %.1fs: %s" % (pid, tier, time.time() - t0, "OK" if verdict == 0 else "VIOLATION"))
@@ -355,6 +378,8 @@ def run_replay(pid, path):
         for t, w in ob["failed"]:
             log("[%s]   obligation broken: %s (%s)" % (pid, t, w))
         return 1 if ob["failed"] else 0
+    if rec.get("stream"):
+        pid = rec["stream"]
     outdir = os.path.join(WORK, pid + "-replay")
     os.makedirs(outdir, exist_ok=True)
     cf = os.path.join(WORK, pid + "-replay-case.json")
